@@ -97,7 +97,7 @@ def genRun (Y : YieldFn) (tk : PTask) : List GStep → Sess → List PTask → S
   | .parseDefined raises :: r, s, k => if k.isEmpty && raises then (s, true, false) else genRun Y tk r s k
   | .collectEach :: r, s, k => genRun Y tk r s k
   | .raiseOnCollectFail :: r, s, k => if k.any (·.uncollectable) then (s, true, false) else genRun Y tk r s k
-  | .raiseOnNameClash :: r, s, k => if nameClash s.tasks k then (s, true, false) else genRun Y tk r s k
+  | .raiseOnDuplicate :: r, s, k => if nameClash s.tasks k then (s, true, false) else genRun Y tk r s k
   | .extendTasks :: r, s, k => genRun Y tk r { s with tasks := s.tasks ++ k } k
   | .modifyTasks :: r, s, k => genRun Y tk r s k
   | .recreate c :: r, s, k => genRun Y tk r (if condGen s tk.id c then recreateGen s tk.id else s) k
